@@ -42,7 +42,7 @@ def doneRank : Bool → Nat
 
 /-- steps a transceiver's tasks, decoder thread and running `stop()` calls still have to take -/
 def trxW (t : Trx) : Nat := t.rank + (3 - t.rcvStop) + (3 - t.sndStop)
-def tptW (t : Tpt) : Nat := t.rank + (3 - t.dtlsStop) + (3 - t.iceStop)
+def tptW (t : Tpt) : Nat := t.rank + (3 - t.dtlsStop) + (3 - t.iceStop) + (4 - t.nstop)
 def sctpW : Option Sctp → Nat
   | some sc => 3 - sc.stop | none => 0
 
@@ -88,7 +88,7 @@ theorem trx_set_rank (t : Trx) (w : Which) (r : Run) (h : r.rank < (t.get w).ran
 
 /-- with no live `__connect` task a transceiver step is a task step that lowers the rank, or an input -/
 theorem trxStep_rank {t t' : Trx} {a : TrxAct} (h : trxStep false t a = some t') :
-    (match a with | .mkTrack | .assign _ => t'.rank = t.rank | _ => t'.rank < t.rank) := by
+    (match a with | .mkTrack | .assign _ | .cancel _ => t'.rank = t.rank | _ => t'.rank < t.rank) := by
   cases a with
   | sndStart => simp [trxStep] at h
   | rcvStart => simp [trxStep] at h
@@ -113,9 +113,15 @@ theorem trxStep_rank {t t' : Trx} {a : TrxAct} (h : trxStep false t a = some t')
     split at h
     · injection h with h; subst h; simp [Trx.rank]
     · simp at h
+  | cancel w =>
+    simp only [trxStep] at h
+    split at h
+    · injection h with h; subst h
+      cases w <;> simp [Trx.set, Trx.get, Trx.rank, run_cancel_rank]
+    · simp at h
 
 theorem tptStep_rank {t t' : Tpt} {a : TptAct} (h : tptStep false t a = some t') :
-    (match a with | .discard => t'.rank = t.rank | _ => t'.rank < t.rank) := by
+    (match a with | .nstep => t'.rank = t.rank | _ => t'.rank < t.rank) := by
   cases a with
   | iceStart => simp [tptStep] at h
   | iceDone ok => simp [tptStep] at h
@@ -144,11 +150,11 @@ theorem tptStep_rank {t t' : Tpt} {a : TptAct} (h : tptStep false t a = some t')
       simp at hp
       simp [Tpt.rank, PPc.rank, MPc.rank, hp.1]
     · simp at h
-  | discard =>
+  | nstep =>
     simp only [tptStep] at h
-    split at h
-    · injection h with h; subst h; simp [Tpt.rank]
-    · simp at h
+    repeat' split at h
+    all_goals (try (simp at h; done))
+    all_goals (injection h with h; subst h; simp [Tpt.rank])
 
 theorem trxStep_stops {live : Bool} {t t' : Trx} {a : TrxAct} (h : trxStep live t a = some t') :
     t'.rcvStop = t.rcvStop ∧ t'.sndStop = t.sndStop := by
@@ -157,6 +163,11 @@ theorem trxStep_stops {live : Bool} {t t' : Trx} {a : TrxAct} (h : trxStep live 
     simp only [trxStep, Option.map_eq_some_iff] at h
     obtain ⟨r, -, rfl⟩ := h
     cases w <;> simp [Trx.set]
+  | cancel w =>
+    simp only [trxStep] at h
+    split at h
+    · injection h with h; subst h; cases w <;> simp [Trx.set]
+    · simp at h
   | sndStart | rcvStart | decoderStop | mkTrack | assign k =>
     simp only [trxStep] at h
     first
@@ -167,24 +178,27 @@ theorem trxStep_stops {live : Bool} {t t' : Trx} {a : TrxAct} (h : trxStep live 
 
 theorem tptStep_stops {live : Bool} {t t' : Tpt} {a : TptAct} (h : tptStep live t a = some t') :
     t'.dtlsStop = t.dtlsStop ∧ t'.iceStop = t.iceStop := by
-  cases a <;>
-  · simp only [tptStep] at h
-    split at h
-    · injection h with h; subst h; simp
-    · simp at h
+  cases a <;> simp only [tptStep] at h <;> (repeat' split at h) <;> (try (simp at h; done)) <;>
+    (injection h with h; subst h; simp)
+
+/-- the clean-up position only moves through `nstep`, one at a time, up to 4 -/
+theorem tptStep_nstop {live : Bool} {t t' : Tpt} {a : TptAct} (h : tptStep live t a = some t') :
+    (match a with | .nstep => t'.nstop = t.nstop + 1 ∧ t'.nstop ≤ 4 | _ => t'.nstop = t.nstop) := by
+  cases a <;> simp only [tptStep] at h <;> (repeat' split at h) <;> (try (simp at h; done)) <;>
+    (injection h with h; subst h; simp_all)
 
 theorem trxStep_W {t t' : Trx} {a : TrxAct} (h : trxStep false t a = some t') :
-    (match a with | .mkTrack | .assign _ => trxW t' = trxW t | _ => trxW t' < trxW t) := by
+    (match a with | .mkTrack | .assign _ | .cancel _ => trxW t' = trxW t | _ => trxW t' < trxW t) := by
   have hs := trxStep_stops h
   have hr := trxStep_rank h
   cases a <;> simp only [trxW, hs.1, hs.2] <;> simp only at hr <;> omega
 
-theorem tptStep_W {t t' : Tpt} {a : TptAct} (h : tptStep false t a = some t') :
-    (match a with | .discard => tptW t' = tptW t | _ => tptW t' < tptW t) := by
+/-- with no live `__connect` task every transport step is a task step that lowers the weight -/
+theorem tptStep_W {t t' : Tpt} {a : TptAct} (h : tptStep false t a = some t') : tptW t' < tptW t := by
   have hs := tptStep_stops h
   have hr := tptStep_rank h
-  cases a <;> simp only [tptW, hs.1, hs.2] <;> simp only at hr <;> omega
-
+  have hn := tptStep_nstop h
+  cases a <;> simp only [tptW, hs.1, hs.2] <;> simp only at hr hn <;> omega
 
 theorem tail_len (l : List Instr) (h : l ≠ []) : l.tail.length + 1 = l.length := by
   cases l with
@@ -320,6 +334,7 @@ theorem step_mu {s s' : State} {a : Action} (hD : ConnsStopped s) (hc : s.closed
     cases a with
     | mkTrack => simp [Action.kind] at hk
     | assign k => simp [Action.kind] at hk
+    | cancel w => simp [Action.kind] at hk
     | sndStart | rcvStart | first w | exit w | decoderStop =>
       simp only [State.step] at h
       split at h
@@ -330,7 +345,19 @@ theorem step_mu {s s' : State} {a : Action} (hD : ConnsStopped s) (hc : s.closed
       · simp at h
   | tpt k a =>
     cases a with
-    | discard => simp [Action.kind] at hk
+    | nstep =>
+      simp only [State.step] at h
+      split at h
+      · rename_i t ht
+        split at h
+        · simp only [hlive, Option.map_eq_some_iff] at h
+          obtain ⟨t', ht', rfl⟩ := h
+          have := mu_setTpt_lt ht (tptStep_W ht')
+          have hm : mu ((s.setTpt k t').syncSet k t') = mu (s.setTpt k t') := by
+            unfold State.syncSet; split <;> rfl
+          rw [hm]; exact this
+        · simp at h
+      · simp at h
     | pumpExit =>
       simp only [State.step] at h
       split at h
